@@ -80,6 +80,51 @@ def build(pid, repo, race=True, extra_tags=""):
     return p.returncode, p.stdout, out, time.time() - t0
 
 
+def arm_failpoints(pid, repo):
+    """Scratch copy of `repo` with gofail failpoints enabled for this check (tools/failpoints.json).
+    Returns (scratch_dir or None, armed names, terms, lock file handle or None)."""
+    try:
+        spec = json.load(open(os.path.join(VERIF, "tools", "failpoints.json"))).get(pid)
+    except (OSError, ValueError):
+        spec = None
+    gofail = os.path.join(VERIF, "bin", "gofail")
+    if not spec or os.environ.get("VERIF_NO_FAILPOINTS"):
+        return None, [], "", None
+    if not os.path.exists(gofail):
+        p = subprocess.run(["go1.26.8", "build", "-o", gofail, "go.etcd.io/gofail"], cwd=HARNESS, env=go_env(),
+                           stdout=subprocess.PIPE, stderr=subprocess.STDOUT, text=True)
+        if p.returncode != 0:
+            return None, [], "", None
+    tag = hashlib.sha1(os.path.realpath(repo).encode()).hexdigest()[:10]
+    scratch = "/var/tmp/verif-fp-%s-%s" % (pid, tag)   # fixed per source tree: keeps the Go build cache warm
+    lock = open(scratch + ".lock", "w")
+    import fcntl
+    fcntl.flock(lock, fcntl.LOCK_EX)
+    try:
+        subprocess.run(["rsync", "-a", "--delete", "--exclude", ".git", os.path.realpath(repo) + "/", scratch + "/"], check=True)
+        armed, dirs = [], set()
+        for pt in spec["points"]:
+            path = os.path.join(scratch, pt["file"])
+            src = open(path).read()
+            if src.count(pt["before"] + "\n") != 1:
+                continue
+            src = src.replace(pt["before"] + "\n", "\t// gofail: var %s struct{}\n\n%s\n" % (pt["name"], pt["before"]))
+            open(path, "w").write(src)
+            armed.append(pt["name"])
+            dirs.add(os.path.dirname(path))
+        if not armed:
+            raise RuntimeError("no anchor found")
+        for d in sorted(dirs):
+            subprocess.run([gofail, "enable", d], check=True, stdout=subprocess.PIPE, stderr=subprocess.STDOUT)
+        terms = ";".join(t for t in spec["terms"].split(";") if t.split("=")[0] in armed)
+        return scratch, armed, terms, lock
+    except Exception:
+        shutil.rmtree(scratch, ignore_errors=True)
+        fcntl.flock(lock, fcntl.LOCK_UN)
+        lock.close()
+        return None, [], "", None
+
+
 RACE_HDR = "WARNING: DATA RACE"
 FRAME_RE = re.compile(r"^\s+(\S+)\(.*\)\s*$|^\s+(\S+)\(\)\s*$")
 
@@ -231,7 +276,26 @@ def run_check(pid, tier, replay=None):
         print("INCONCLUSIVE property=%s no harness package" % pid, file=sys.stderr)
         return 2
 
-    rc, out, binpath, bsecs = build(pid, repo)
+    fp_scratch, fp_armed, fp_terms, fp_lock = arm_failpoints(pid, repo)
+    try:
+        return _run_check(pid, tier, replay, t0, seed, repo, alt, evdir, case, fp_scratch, fp_armed, fp_terms)
+    finally:
+        if fp_scratch:
+            margs, suffix = modfile_args(fp_scratch)
+            for a in margs:
+                altmod = a.split("=", 1)[1]
+                for fn in (altmod, altmod[:-4] + ".sum", os.path.join(VERIF, "bin", "%s%s.test" % (pid.lower(), suffix))):
+                    try:
+                        os.remove(fn)
+                    except OSError:
+                        pass
+            import fcntl
+            fcntl.flock(fp_lock, fcntl.LOCK_UN)
+            fp_lock.close()
+
+
+def _run_check(pid, tier, replay, t0, seed, repo, alt, evdir, case, fp_scratch, fp_armed, fp_terms):
+    rc, out, binpath, bsecs = build(pid, fp_scratch or repo)
     if rc != 0:
         sys.stderr.write(out[-6000:])
         print("INCONCLUSIVE property=%s build failed" % pid, file=sys.stderr)
@@ -248,6 +312,9 @@ def run_check(pid, tier, replay=None):
         "VERIF_DIR": VERIF, "VERIF_REPO_DIR": os.path.realpath(repo),
         "GORACE": "halt_on_error=0 log_path=%s/race history_size=5" % rundir,
     })
+    if fp_armed:
+        env["GOFAIL_FAILPOINTS"] = fp_terms
+        env["VERIF_FAILPOINTS"] = fp_terms
     if case is not None:
         env["VERIF_CASE"] = str(case)
     else:
@@ -396,6 +463,11 @@ def setup():
         claimed = {c["property_id"] for c in man.get("checks", [])}
     except Exception:
         pass
+    gofail = os.path.join(VERIF, "bin", "gofail")
+    os.makedirs(os.path.dirname(gofail), exist_ok=True)
+    p = subprocess.run(["go1.26.8", "build", "-o", gofail, "go.etcd.io/gofail"], cwd=HARNESS, env=go_env(),
+                       stdout=subprocess.PIPE, stderr=subprocess.STDOUT, text=True)
+    print("setup gofail build rc=%d" % p.returncode)   # failure is not fatal: checks then run without failpoints
     for pid in props():
         if claimed is not None and pid not in claimed:
             continue
